@@ -459,6 +459,28 @@ class Desugar(ast.NodeTransformer):
         it = node.iter
         if isinstance(it, ast.Name) and isinstance(self.consts.get(it.id), (ast.Tuple, ast.List)):
             it = self.consts[it.id]           # a module-level tuple of names
+        # for h in (left, right): h.attr = v  -- a loop over a literal tuple of (at most 4) plain names is
+        # unrolled when the loop variable is only read in the body
+        if isinstance(node.target, ast.Name) and isinstance(it, (ast.Tuple, ast.List)) and 2 <= len(it.elts) <= 4 and \
+                not node.orelse and all(isinstance(e, ast.Name) for e in it.elts) and \
+                not any(isinstance(x, (ast.Break, ast.Continue, ast.Return, ast.For, ast.While, ast.Lambda,
+                                       ast.ListComp, ast.GeneratorExp, ast.DictComp, ast.SetComp))
+                        for s in node.body for x in ast.walk(s)) and \
+                not any(isinstance(x, ast.Name) and x.id == node.target.id and isinstance(x.ctx, (ast.Store, ast.Del))
+                        for s in node.body for x in ast.walk(s)) and \
+                not any(isinstance(x, ast.Name) and isinstance(x.ctx, ast.Store) and x.id in {e.id for e in it.elts}
+                        for s in node.body for x in ast.walk(s)) and len(node.body) <= 4 and \
+                getattr(self, 'unroll_names', True):
+            out = []
+            for e in it.elts:
+                for s in node.body:
+                    out.append(_SubstName(node.target.id, e).visit(copy.deepcopy(s)))
+            self.changed = True
+            res = []
+            for s in out:
+                r = self.visit(s)
+                res.extend(r if isinstance(r, list) else [r])
+            return res
         # for a, b in (('f', x), ('g', y)): unroll over the literal tuples (each name substituted)
         if isinstance(node.target, ast.Tuple) and isinstance(it, (ast.Tuple, ast.List)) and it.elts and \
                 len(it.elts) <= 12 and not node.orelse and all(isinstance(t, ast.Name) for t in node.target.elts) and \
@@ -544,6 +566,13 @@ class SuperCalls(ast.NodeTransformer):
     def visit_Call(self, node):
         self.generic_visit(node)
         f = node.func
+        # super(Cls, self) inside a method of Cls  ->  super()
+        if isinstance(f, ast.Name) and f.id == 'super' and len(node.args) == 2 and self.fi.cls is not None and \
+                isinstance(node.args[0], ast.Name) and isinstance(node.args[1], ast.Name) and node.args[1].id == 'self':
+            c = self.repo.resolve_name(self.fi.module, node.args[0].id)
+            if c is self.fi.cls:
+                self.changed = True
+                return ast.copy_location(ast.Call(func=f, args=[], keywords=[]), node)
         if isinstance(f, ast.Attribute) and isinstance(f.value, ast.Name) and node.args and \
                 isinstance(node.args[0], ast.Name) and node.args[0].id == 'self' and self.fi.cls is not None:
             base = self.repo.resolve_name(self.fi.module, f.value.id)
